@@ -934,7 +934,7 @@ func r07f(c *core.Ctx) {
 	okSort := false
 	for _, f := range c.SrcFuncs() {
 		if core.BaseName(f) == "Build" && strings.Contains(core.FuncName(f), "netlist.ListBuilder") {
-			for _, an := range f.AnonFuncs {
+			for _, an := range closuresOf(f) {
 				for _, ret := range returnsOf(an) {
 					if cm, ok := core.CmpOf(ret.Results[0]); ok && cm.Op == "<" && !cm.Neg && strings.Contains(cm.X, ".start.cmp(") && strings.Contains(cm.X, ".start)") && cm.Y == "0" {
 						okSort = true
